@@ -193,6 +193,105 @@ func init() {
 		fmt.Printf("{\"traces\": %d, \"events\": %d}\n", t, w.N)
 		return 0
 	})
+	register("drive-multilin", "direction B: concurrent multi-source runs (inv/ret/recv) for MultiLin.tla; -park: one preemption at every hook point of thread 0", func(args []string) int {
+		fs := flag.NewFlagSet("drive-multilin", flag.ExitOnError)
+		seed := fs.Int64("seed", 1, "seed")
+		n := fs.Int("n", 100, "number of histories (scenarios in park mode)")
+		out := fs.String("out", "trace.ndjson", "output NDJSON")
+		scen := fs.String("scenarios", "", "write the scenarios (JSON lines) here")
+		park := fs.Bool("park", false, "park mode")
+		par := fs.Int("par", 8, "histories run in parallel (free-running mode)")
+		_ = fs.Parse(args)
+		kernel.InstallHooks()
+		r := rand.New(rand.NewSource(*seed))
+		w, err := rec.NewWriter(*out)
+		if err != nil {
+			fmt.Fprintln(os.Stderr, err)
+			return 2
+		}
+		var enc *json.Encoder
+		if *scen != "" {
+			sf, _ := os.Create(*scen)
+			defer sf.Close()
+			enc = json.NewEncoder(sf)
+		}
+		t := 0
+		if *park {
+			pre := 0
+			runOne := func(sc kernel.MultiLinScenario, at int) int {
+				t++
+				pk := rec.NewParker(at)
+				ro.SetVerifHook(pk.Hook)
+				lg := &rec.Log{T: t}
+				done := make(chan []rec.Ev, 1)
+				go func() { done <- kernel.RunMultiLinPre(lg, sc, *seed*7919+int64(t), pk, pre) }()
+				var evs []rec.Ev
+				select {
+				case evs = <-done:
+				case <-time.After(4 * time.Second):
+					pk.Release()
+					lg.Add(rec.Ev{E: "hang", S: pk.Point})
+					evs = lg.Events()
+				}
+				ro.SetVerifHook(nil)
+				w.Write(evs)
+				if enc != nil {
+					_ = enc.Encode(map[string]any{"t": t, "scenario": sc, "park_at": at, "point": pk.Point})
+				}
+				return pk.Hits()
+			}
+			for i := 0; i < *n; i++ {
+				sc := kernel.GenMultiLin(r)
+				// for every prefix length of the other producer: one preemption of the victim at every hook point it reaches
+				for pre = 0; pre <= 3; pre++ {
+					hits := runOne(sc, 1<<30)
+					if hits > 40 {
+						hits = 40
+					}
+					for at := 1; at <= hits; at++ {
+						runOne(sc, at)
+					}
+				}
+			}
+		} else {
+			ro.SetVerifHook(rec.NewYielder(*seed).Hook)
+			scs := make([]kernel.MultiLinScenario, *n)
+			res := make([][]rec.Ev, *n)
+			for i := range scs {
+				scs[i] = kernel.GenMultiLin(r)
+			}
+			sem := make(chan struct{}, *par)
+			var wg sync.WaitGroup
+			for i := range scs {
+				wg.Add(1)
+				sem <- struct{}{}
+				go func(i int) {
+					defer wg.Done()
+					defer func() { <-sem }()
+					lg := &rec.Log{T: i + 1}
+					done := make(chan []rec.Ev, 1)
+					go func() { done <- kernel.RunMultiLin(lg, scs[i], *seed*100003+int64(i), nil) }()
+					select {
+					case res[i] = <-done:
+					case <-time.After(20 * time.Second):
+						lg.Add(rec.Ev{E: "hang"})
+						res[i] = lg.Events()
+					}
+				}(i)
+			}
+			wg.Wait()
+			for i, evs := range res {
+				w.Write(evs)
+				if enc != nil {
+					_ = enc.Encode(map[string]any{"t": i + 1, "scenario": scs[i]})
+				}
+			}
+			t = *n
+		}
+		w.Close()
+		fmt.Printf("{\"traces\": %d, \"events\": %d}\n", t, w.N)
+		return 0
+	})
 	register("drive-share", "direction B: concurrent Share / connectable traces for ShareGauge.tla; -park: one preemption at every hook point of thread 0", func(args []string) int {
 		fs := flag.NewFlagSet("drive-share", flag.ExitOnError)
 		seed := fs.Int64("seed", 1, "seed")
@@ -317,6 +416,63 @@ func init() {
 				lg := &rec.Log{T: i + 1}
 				done := make(chan []rec.Ev, 1)
 				go func() { done <- kernel.RunDetach(lg, scs[i], *seed*100003+int64(i)) }()
+				select {
+				case res[i] = <-done:
+				case <-time.After(30 * time.Second):
+					lg.Add(rec.Ev{E: "hang"})
+					res[i] = lg.Events()
+				}
+			}(i)
+		}
+		wg.Wait()
+		w, err := rec.NewWriter(*out)
+		if err != nil {
+			fmt.Fprintln(os.Stderr, err)
+			return 2
+		}
+		var enc *json.Encoder
+		if *scen != "" {
+			sf, _ := os.Create(*scen)
+			defer sf.Close()
+			enc = json.NewEncoder(sf)
+		}
+		for i, evs := range res {
+			w.Write(evs)
+			if enc != nil {
+				_ = enc.Encode(map[string]any{"t": i + 1, "scenario": scs[i]})
+			}
+		}
+		w.Close()
+		fmt.Printf("{\"traces\": %d, \"events\": %d}\n", *n, w.N)
+		return 0
+	})
+	register("drive-collect", "direction B: ro.Collect over synchronous / asynchronous producers for CollectTrace.tla", func(args []string) int {
+		fs := flag.NewFlagSet("drive-collect", flag.ExitOnError)
+		seed := fs.Int64("seed", 1, "seed")
+		n := fs.Int("n", 100, "number of traces")
+		out := fs.String("out", "trace.ndjson", "output NDJSON")
+		scen := fs.String("scenarios", "", "write the scenarios (JSON lines) here")
+		par := fs.Int("par", 8, "traces run in parallel")
+		_ = fs.Parse(args)
+		kernel.InstallHooks()
+		ro.SetVerifHook(rec.NewYielder(*seed).Hook)
+		r := rand.New(rand.NewSource(*seed))
+		scs := make([]kernel.CollectScenario, *n)
+		res := make([][]rec.Ev, *n)
+		for i := range scs {
+			scs[i] = kernel.GenCollect(r)
+		}
+		sem := make(chan struct{}, *par)
+		var wg sync.WaitGroup
+		for i := range scs {
+			wg.Add(1)
+			sem <- struct{}{}
+			go func(i int) {
+				defer wg.Done()
+				defer func() { <-sem }()
+				lg := &rec.Log{T: i + 1}
+				done := make(chan []rec.Ev, 1)
+				go func() { done <- kernel.RunCollect(lg, scs[i], *seed*100003+int64(i)) }()
 				select {
 				case res[i] = <-done:
 				case <-time.After(30 * time.Second):
